@@ -35,7 +35,7 @@ def case(draw, tier):
     schema = ("SIGNAL",) if kind == 0 else ("TS", draw(st.sampled_from(["int", "str", "bool"]))) if kind == 1 else draw(tm.schemas(3))
     start = 0  # the TESTING record/replay backend indexes its dense buffer from MIN_ST (eval_node usage)
     horizon = draw(st.integers(3, 30 if big else 12))
-    opts = {"cancel": True, "multi": True, "no_rewrite": True, "inval": False, "keys": draw(st.sampled_from([4, 8])), "grow": draw(st.booleans())}
+    opts = {"cancel": True, "multi": True, "no_rewrite": True, "inval": False, "keys": draw(st.sampled_from([4, 8])), "grow": draw(st.booleans()), "whole": True}
     script = draw(tm.history(schema, start, horizon, opts, max_cycles=12 if big else 7))
     return {"schema": schema, "script": script, "start": start, "end": start + horizon}
 
